@@ -393,7 +393,7 @@ def _frames():
 
 def run_shard(rec):
     quick = rec.tier == 'quick'
-    rec.deadline = time.time() + (75 if quick else 900)
+    rec.deadline = time.time() + (300 if quick else 900)
     depths = DEPTHS_QUICK if quick else DEPTHS_THOROUGH
     idx = 0
     for iname, e0, rules, stmts in inners():
